@@ -60,6 +60,22 @@ def check(ctx, F):
     check_budget(ctx, F)
     check_save_const(ctx, F)
     check_load(ctx, F)
+    check_widths(ctx, F)
+
+
+def check_widths(ctx, F):
+    """the field that stores a region's prong is wide enough for every prong: 2^WIDTH_BITS >= WIDTH (and not wider than needed), read from the
+    constants clang evaluated for every C_ instantiation"""
+    for t in F.types:
+        if t.get("tmpl") == "C_" and t.get("complete") and "WIDTH" in t.get("consts", {}) and "WIDTH_BITS" in t["consts"]:
+            w, wb = t["consts"]["WIDTH"], t["consts"]["WIDTH_BITS"]
+            need = max(1, (w - 1).bit_length()) if w > 1 else 0
+            site = "C_/WIDTH_BITS(%d)" % w
+            ctx.instance("C08.budget", site, {"WIDTH": w, "WIDTH_BITS": wb, "needed": need})
+            if (1 << wb) < w or (w > 1 and wb != need):
+                ctx.violation("C08.budget", "C_/WIDTH_BITS", "C_ of width %d (%s)" % (w, t.get("loc", "")),
+                              "a region with %d sub-states stores its prong in WIDTH_BITS = %d bits, %d are needed: prongs >= %d do not survive save / load" % (
+                                  w, wb, need, 1 << wb), {"WIDTH": w, "WIDTH_BITS": wb})
 
 
 def width_of(F, fid):
